@@ -196,6 +196,7 @@ def run(ctx):
     run_deductive(ctx)
     from props import C02 as _c02
     _c02.verify_split_gpg(ctx, real)       # the reader's line filter: nothing but matching lines is cut off or taken for armor
+    _c02.verify_internal_parser(ctx, real)  # the field-collecting loop against its recursive specification
     rng = random.Random(ctx.seed)
     Deb822 = real.Deb822
     N = 5 if ctx.tier == "quick" else 6
